@@ -272,6 +272,11 @@ def run(prop, tier, seed, rep):
                                 "size": job["size"], "touch": job["touch"], "filter_time": job["filter_time"]}
             rep.mismatch(owner, cls, field, w)
     json.dump(summary, open(os.path.join(core.BUILD, f"last_{prop}_verdicts.json"), "w"), indent=1, sort_keys=True)
+    if tier == "thorough":
+        idx = next(i for i, e in enumerate(events) if e["ev"] == "session_end" and e["quit_sent"] == 1 and e["exit"] == 0)
+        lo = max(j for j in range(idx) if events[j]["ev"] == "session_start")
+        core.anti_vacuity(rep, "Trace_UI", events[lo:idx + 1], [(idx - lo, lambda e: (e["termios_after"].update(echo=0), e)[1], "C17")],
+                          boundary=lambda e: e["ev"] == "session_start", name="C17-selftest")
     kinds = {}
     for e in events:
         kinds[e["ev"]] = kinds.get(e["ev"], 0) + 1
